@@ -28,4 +28,10 @@ def run(ctx, rep):
             rep.fail(sig, case, detail)
         else:
             other[prop] = other.get(prop, 0) + 1
+    from . import probes
+    for prop, sig, case, detail in probes.run_probes(ctx, rep):      # hand-written unusual texts, judged by the reference like the rest
+        if prop == "C05":
+            rep.fail(sig, case, detail)
+        else:
+            other[prop] = other.get(prop, 0) + 1
     rep.coverage_extra["failures_attributed_to_other_properties"] = other
